@@ -14,11 +14,15 @@ pub mod c07;
 pub mod c08;
 pub mod c12;
 pub mod c13;
+pub mod c14;
+pub mod c15;
 pub mod c17;
 pub mod c19;
 pub mod c21;
 pub mod c22;
 pub mod c23;
+pub mod c25;
+pub mod c27;
 pub mod c28;
 pub mod driver_common;
 pub mod suite;
@@ -36,11 +40,15 @@ pub const REGISTRY: &[(&str, RunFn)] = &[
     ("C08", c08::run),
     ("C12", c12::run),
     ("C13", c13::run),
+    ("C14", c14::run),
+    ("C15", c15::run),
     ("C17", c17::run),
     ("C19", c19::run),
     ("C21", c21::run),
     ("C22", c22::run),
     ("C23", c23::run),
+    ("C25", c25::run),
+    ("C27", c27::run),
     ("C28", c28::run),
 ];
 
